@@ -282,7 +282,7 @@ static void p0_run(uint64_t idx, vh_rng_t * rng) {
 
 int main(int argc, char ** argv) {
     static const vh_phase_t phases[] = { { "streams", p0_count, p0_run } };
-    vh_decoy_enable(11); vh_require("decoy.messages_run_on_a_second_context"); vh_require("history.pending_units_then_overrun"); vh_require("history.pending_units_then_device_clear"); vh_require("history.pending_units_then_buffer_swapped"); vh_require("seg.all_at_once"); vh_require("seg.single_split"); vh_require("seg.random_multiway"); vh_require("stream.terminator_inside_block");
+    vh_scribble_chunk_in_callbacks(1); vh_decoy_enable(11); vh_require("decoy.messages_run_on_a_second_context"); vh_require("history.pending_units_then_overrun"); vh_require("history.pending_units_then_device_clear"); vh_require("history.pending_units_then_buffer_swapped"); vh_require("seg.all_at_once"); vh_require("seg.single_split"); vh_require("seg.random_multiway"); vh_require("stream.terminator_inside_block");
     vh_require("stream.terminator_inside_string"); vh_require("stream.with_flush_calls"); vh_require("stream.leaves_remainder"); vh_require("stream.produces_output");
     vh_require("stream.raises_errors"); vh_require("family.tight_buffer"); vh_require("stream.longer_than_258_bytes"); vh_require("stream.nondecimal_or_expression_followed_by_string_or_block"); vh_require("stream.expression_with_nested_parentheses_or_strings"); vh_require("stream.longer_than_514_bytes");
     return vh_main(argc, argv, "C08", phases, 1);
